@@ -182,6 +182,8 @@ class Module:
             m = re.match(r'^([\w.$-]+):', ln)
             if m:
                 cur = m.group(1); blocks[cur] = []; order.append(cur); continue
+            if blocks[cur] and blocks[cur][-1].startswith('switch ') and not blocks[cur][-1].rstrip().endswith(']'):
+                blocks[cur][-1] += ' ' + ln.strip(); continue  # arms of a switch, one per line, up to the closing bracket
             if ln.startswith('  ') and blocks[cur] and ln.startswith('     '):
                 blocks[cur][-1] += ' ' + re.sub(r' #\d+', '', ln.strip()); continue  # continuation (invoke/landingpad/switch)
             blocks[cur].append(re.sub(r' #\d+', '', re.sub(r', ![\w.]+ !\d+', '', ln.strip())))
@@ -483,6 +485,27 @@ class Exec:
                         st2 = st.clone()
                         if not z3.is_true(cond): st2.pc.append(cond)
                         yield from s.exec_block(f, lab, label, env, st2, visits, depth)
+                return
+            elif op == 'switch':
+                ty = parse_type(p); v = s.operand(p, ty, env); p.expect(','); p.expect('label'); dflt = p.next().lstrip('%'); p.expect('[')
+                arms = []
+                while not p.accept(']'):
+                    cty = parse_type(p); cv = s.operand(p, cty, env); p.expect(','); p.expect('label'); arms.append((cv, p.next().lstrip('%')))
+                taken = []
+                for cv, lab in arms:
+                    cond = z3.simplify(v == cv)
+                    if z3.is_false(cond): continue
+                    if z3.is_true(cond) or s.feasible(st.pc, cond):
+                        st2 = st.clone()
+                        if not z3.is_true(cond): st2.pc.append(cond)
+                        yield from s.exec_block(f, lab, label, env, st2, visits, depth)
+                    taken.append(cond)
+                    if z3.is_true(cond): return
+                none = z3.simplify(z3.Not(z3.Or(taken))) if taken else z3.BoolVal(True)
+                if not z3.is_false(none) and (z3.is_true(none) or s.feasible(st.pc, none)):
+                    st2 = st.clone()
+                    if not z3.is_true(none): st2.pc.append(none)
+                    yield from s.exec_block(f, dflt, label, env, st2, visits, depth)
                 return
             elif op == 'ret':
                 ty = parse_type(p)
